@@ -611,6 +611,10 @@ def const_code(rng, ty):
         if voc.COMPOSITE[ty][3] and rng.random() < 0.25:
             return 0
         return voc.mk(ty, [rng.choice([0, 1, 2, 3, 5, 8]) for _ in voc.COMPOSITE[ty][2]])
+    if ty in voc.LEX:
+        if voc.c03_lex.is_opt(ty) and rng.random() < 0.25:
+            return 0
+        return voc.c03_lex.mk(ty, [rng.choice([0, 1, 2, 3, 5, 8]) for _ in voc.c03_lex.dirs(ty)])
     raise KeyError(ty)
 
 
